@@ -83,6 +83,13 @@ def run(ctx):
             if c in ("MC_Quick", "MC_relayEntry"):
                 need.append("RelayTimeout")
             ctx.require_coverage(r, need, c)
+    # executeDkgValidation around the approval (validity, challenge loop, scheduling failures)
+    r = ctx.tlc(SPEC, "Validation", cfg="MC_Validation", coverage=True, label="MC_Validation", files=files)
+    ctx.require_coverage(r, ["Challenge", "Confirm"], "MC_Validation")
+    gv = ctx.tlc(SPEC, "Gen_Validation", cfg="Gen_Validation", workers=1, label="Gen_Validation", files=files, dump_trace=False)
+    validation = ctx.read_emitted(gv, "validation.ndjson")
+    if len(validation) < 10:
+        ctx.broken("only %d validation behaviours" % len(validation))
     hz = ctx.tlc(SPEC, "Submission", cfg="MC_RelayAsCoded", label="MC_RelayAsCoded", files=files, expect=("violation",))
     ctx.extra["hazard_ascoded_violates"] = hz.violated
 
@@ -126,7 +133,7 @@ def run(ctx):
                      timeout=ctx.pick(900, 3000),
                      inputs={"slotcases.ndjson": sel(["tecdsaDkg", "inactivity", "approval"]),
                              "behaviours_tecdsaDkg.ndjson": by["tecdsaDkg"], "behaviours_inactivity.ndjson": by["inactivity"],
-                             "behaviours_approval.ndjson": by["approval"]})
+                             "behaviours_approval.ndjson": by["approval"], "validation.ndjson": validation})
     ctx.absorb(go3)
     # every protocol must have been stepped through its decisive actions
     counters = {}
